@@ -6,7 +6,7 @@ from props import dtfam
 
 ID = 'C03'
 PROPS_MODULE = 'Props.C03'
-THEOREMS = ['C03_colfilter', 'C03_coldfilt', 'C03_q2c']
+THEOREMS = ['C03_colfilter', 'C03_coldfilt', 'C03_rowfilter', 'C03_rowdfilt', 'C03_q2c']
 VO = ['theories/Props/C03.vo', 'theories/Run/RunDtcwt.vo', 'theories/Run/RunSpec.vo']
 RULE = ('correspondence A: colfilter/rowfilter/coldfilt/rowdfilt full operator matrices (odd/even lengths, both m/2 parities, both flags, rows below the filter length = multiple '
         'reflections, not-multiple-of-4 -> ValueError), q2c, fwd_j1/fwd_j2plus (skip on/off, both pad modes), DTCWTForward with every skip mask and all intermediate lowpasses on sizes of '
@@ -14,7 +14,7 @@ RULE = ('correspondence A: colfilter/rowfilter/coldfilt/rowdfilt full operator m
         'oracle: DTCWTForward vs dtcwt.Transform2d for all 20 named pairs, J<=4. distinct by configuration.')
 TRUSTED = TRUSTED_COMMON + ['the NumPy dtcwt package as reference: its column filters are represented by hand-derived closed forms (Spec/DtcwtRef.v), tied by correspondence B; its Transform2d level structure by the oracle',
                             'the 1/sqrt2 of q2c is a ring element s in the model; outputs are homogeneous in s and compared after rescaling (rounded within 1e-6)']
-ASSUMES = ['theorems cover the column filters (d=2) and q2c for all sizes; row filters, the orientation bookkeeping, odd-size replication and the pad-to-multiple-of-4 rule are covered by exact correspondence + the reference oracle',
+ASSUMES = ['theorems cover the column and the row filters (colfilter/rowfilter, coldfilt/rowdfilt) and q2c for all sizes; the orientation bookkeeping, odd-size replication and the pad-to-multiple-of-4 rule are covered by exact correspondence + the reference oracle (and enter C04_pyramid on the model side)',
            'the sign hypothesis linking the highpass flag to the reference branch is discharged for the shipped tables in C18 (qshift_signs)']
 
 
